@@ -6,6 +6,10 @@ the call.  Sanity check by mutation of this tie (scratch copies):
   T5  `BaseIndexMixin.docids` tests `len(indexed) == 0` first (hands back the stored, empty not-indexed set of an
       empty index)                                                                                caught
   T6  `KeywordIndex.search` returns `IF.Set(rs)` instead of the stored posting                   caught
+`read prov ccounts <a>`: `FacetIndex.counts` on the object-level heap (`HypatiaModel/ConcurrencyFacetReads.lean`; empty
+stored-write set, theorem `c18_facet_counts_writes_nothing`): the model answers with the dictionary it computes from
+the reverse entries it reads - only if its write log and allocator did not move - and the real `counts` must give the same.
+  T7  `FacetIndex.counts` omits only the exact `omit_facets` entries, not their ancestors          caught
 """
 import importlib
 
@@ -13,13 +17,16 @@ from lib import qtree
 from lib.core import exc_name, idset
 
 ID = "C18"
-AUDIT_IMPORTS = ["HypatiaProofs.Properties.C18", "HypatiaProofs.Properties.C18Index"]
+AUDIT_IMPORTS = ["HypatiaProofs.Properties.C18", "HypatiaProofs.Properties.C18Index",
+                 "HypatiaProofs.Properties.C18Facet"]
 THEOREMS = ["Hyp.Alias." + t for t in ("c18_okapi_apply_target_fresh", "c18_cosine_apply_target", "c18_scan_forward_target_fresh", "c18_docids_may_be_stored", "c18_negate_may_be_stored", "c18_docids_fresh_otherwise", "c18_query_union_aliases")] + \
     ["Hyp.CIdx." + t for t in (      # reads on the object-level heaps (Properties/C18Index.lean)
         "c18_field_reads_write_fresh", "c18_field_read_state_unchanged", "c18_docids_prov", "c18_scan_prov",
         "c18_scan_forward_prov", "c18_keyword_reads_write_fresh", "c18_keyword_search_one_prov",
         "c18_text_reads_write_fresh", "c18_text_read_state_unchanged", "c18_okapi_apply_prov",
-        "c18_cosine_apply_prov", "c18_cosine_idf_one_writes_stored")]
+        "c18_cosine_apply_prov", "c18_cosine_idf_one_writes_stored",
+        # the facet index's reads incl. FacetIndex.counts (Properties/C18Facet.lean)
+        "c18_facet_counts_writes_nothing", "c18_facet_reads_write_fresh", "c18_facet_counts_value")]
 CASES = {"quick": 400, "thorough": 60000}
 BUDGET_S = {"quick": 50, "thorough": 780}
 BATCH = 10
@@ -38,17 +45,21 @@ LEVEL_TEXT = ("Lean 4: (1) reads are functions State -> Args -> Result in every 
               "removal, N-best merging) targets a freshly allocated container, for Okapi unconditionally and for "
               "cosine because idf is never 1; (3) the read paths on the object-level heaps of persistent objects "
               "that C19 and C09 use (posting lookup, multiunion scans, not_indexed, docids, _negate, scan_forward "
-              "with its copy, KeywordIndex.search, Okapi/cosine _search_wids, _trivial, the rescaling loop), "
+              "with its copy, KeywordIndex.search, FacetIndex.counts, Okapi/cosine _search_wids, _trivial, the rescaling "
+              "loop), "
               "with read and write logs: for every state and argument each read writes only to objects it "
               "allocated during the call, so the index state (resolved view; every stored object) is unchanged "
               "and no stored object is registered with the transaction (c18_*_reads_write_fresh, "
-              "c18_*_read_state_unchanged); the provenance table's entries are what these reads return "
+              "c18_*_read_state_unchanged; FacetIndex.counts allocates no persistent object and writes nothing at all, "
+              "and returns C13's counts: c18_facet_counts_writes_nothing, c18_facet_counts_value); the provenance "
+              "table's entries are what these reads return "
               "(c18_docids_prov, c18_scan_forward_prov, c18_keyword_search_one_prov, c18_okapi_apply_prov, "
               "c18_cosine_apply_prov), the cosine idf = 1 case being a real write to a stored IFBTree at this "
               "level (witness). The correspondence run checks the real objects: state, inputs and query objects "
               "before/after every read, repeatability, and - for docids / not_indexed / applyEq / ranges / "
               "keyword search / one-word text apply - that the object-level model predicts whether two calls "
-              "return the very same container")
+              "return the very same container, and for FacetIndex.counts that the object-level read returns the "
+              "same dictionary")
 LEVEL_NOTE = ("partial: purity of the pure models is by construction; the object-level read models and the "
               "provenance table are hand-written from the code and tied to it by the runs (state snapshots, "
               "object identity of returned containers)")
@@ -138,7 +149,14 @@ def gen_read(rng, ids):
             rng.randrange(5)]
 
 
-PROV_KINDS = ["fdocids", "fni", "feq", "frange", "kdocids", "kni", "keq", "kany", "cdocids", "cni", "tapply", "uapply"]
+PROV_KINDS = ["fdocids", "fni", "feq", "frange", "kdocids", "kni", "keq", "kany", "cdocids", "cni", "ccounts",
+              "tapply", "uapply"]
+
+
+def counts_args(a):
+    """arguments of `read prov ccounts a` (the same derivation as Driver/Reads.lean: countsArgs): a repeated and an
+    unknown docid, four omit lists"""
+    return [a % 8, (a // 3) % 8, a % 8, 97], [[], ["a:b"], ["d"], ["a:b:c", "f"]][a % 4]
 
 
 def model_cmd(c):
@@ -184,6 +202,14 @@ class Sess(object):
                 return idset(list(x))
             except TypeError:
                 return repr(x)
+        if kind == "prov" and c[2] == "ccounts":
+            # FacetIndex.counts on the object-level heap (HypatiaModel/ConcurrencyFacetReads.lean): the model answers
+            # with the dictionary it computes from the reverse entries, provided its write log gained nothing
+            docids, omit = counts_args(c[3])
+            r1 = self.c.counts(docids, omit)
+            r2 = self.c.counts(docids, omit)
+            return "prov %s counts=%s" % ("stored" if r1 is r2 else "fresh", ",".join(
+                "%d:%d" % kv for kv in sorted((c09.FACETS.index(k), v) for k, v in r1.items()))), inputs
         if kind == "prov":
             what, a = c[2], c[3]
             fn = {"fdocids": self.f.docids, "fni": self.f.not_indexed,
@@ -436,7 +462,10 @@ def features(case, outs):
     for c, o in zip(case["cmds"], outs):
         if c[0] == "read":
             f.append("read:" + str(c[1]) + (":" + str(c[2]) if c[1] in ("sort", "enum", "rs", "prov") else ""))
-            if c[1] == "prov":
+            if c[1] == "prov" and c[2] == "ccounts":
+                f.append("prov:ccounts " + ("empty" if str(o).endswith("counts=") else "nonempty" if "counts=" in str(o)
+                                            else str(o)))
+            elif c[1] == "prov":
                 f.append("prov:%s %s" % (c[2], o))
             elif o != "unchanged":
                 f.append(o)
